@@ -318,7 +318,7 @@ where
         hint(&it, pos, &format!("after step {}", k))?;
     }
     cx.nontrivial(total >= 2 && skipped);
-    crate::gen::iterator_protocol(&|| RawDataSlice::<R, O>::new(&data).into_iter(), d, "iterator")
+    crate::gen::iterator_protocol_noclone(&|| RawDataSlice::<R, O>::new(&data).into_iter(), d, "iterator")
 }
 
 fn iterator_scripts(d: &mut Dec, cx: &mut Cx) -> Res {
